@@ -236,6 +236,15 @@ func Main() {
 	os.Exit(drive(chk, tier, ""))
 }
 
+// outRoot is /verif unless VERIF_OUT_DIR redirects evidence and replay artefacts (used by tools/mutcheck.sh so that
+// a run against a candidate change never overwrites the evidence of the registered checks).
+func outRoot() string {
+	if d := os.Getenv("VERIF_OUT_DIR"); d != "" {
+		return d
+	}
+	return VerifRoot
+}
+
 func seed() int64 {
 	s, _ := strconv.ParseInt(os.Getenv("VERIF_SEED"), 10, 64)
 	return s
@@ -326,7 +335,7 @@ func drive(chk *Check, tier string, replayFile string) int {
 	exit := 0
 	nviol := 0
 	sort.Slice(merged.Violations, func(i, j int) bool { return merged.Violations[i].Key < merged.Violations[j].Key })
-	repDir := filepath.Join(VerifRoot, "replays", chk.ID)
+	repDir := filepath.Join(outRoot(), "replays", chk.ID)
 	for _, v := range merged.Violations {
 		isKnown := false
 		for _, k := range known {
@@ -398,7 +407,7 @@ func sanitize(s string) string {
 }
 
 func writeEvidence(ev *Evidence) {
-	dir := filepath.Join(VerifRoot, "evidence")
+	dir := filepath.Join(outRoot(), "evidence")
 	os.MkdirAll(dir, 0o755)
 	data, err := json.MarshalIndent(ev, "", " ")
 	if err != nil {
